@@ -131,6 +131,34 @@ func checkPerm(c PCase) (int, error) {
 	if err != nil {
 		return 0, fmt.Errorf("the same blocks in another order / spread over %d files do not evaluate: %v", c.Split, err)
 	}
+	// the same set of files evaluated again and again gives one outcome; the files also hold locals that build on a
+	// local of another file, so the outcome depends on which file's references are resolved first
+	if c.Split >= 2 {
+		files := split(shuffled(bl, c.Perm), c.Split)
+		if len(files) >= 2 {
+			files[0] += "\nlocals {\n  base = \"x\"\n}\n"
+			files[len(files)-1] += "\nlocals {\n  derived = \"${local.base}y\"\n}\n"
+			outcomes := map[string]int{}
+			var order []string
+			for i := 0; i < 24; i++ {
+				o := ""
+				if r, err := evalFiles(files); err != nil {
+					o = "error: " + err.Error()
+				} else if b, err := sqlite.MarshalHCL(r); err != nil {
+					o = "marshal error: " + err.Error()
+				} else {
+					o = string(b)
+				}
+				if outcomes[o] == 0 {
+					order = append(order, o)
+				}
+				outcomes[o]++
+			}
+			if len(order) > 1 {
+				return 0, fmt.Errorf("evaluating the same %d HCL files 24 times gives %d different outcomes (locals of one file building on a local of another):\n--- %d times:\n%s\n--- %d times:\n%s", len(files), len(order), outcomes[order[0]], clip(order[0]), outcomes[order[1]], clip(order[1]))
+			}
+		}
+	}
 	var results [2][]string
 	var cats [2]*sqliteref.Catalog
 	for i, desired := range []*schema.Realm{d1, d2} {
